@@ -158,6 +158,37 @@ fn inc_history<const R: usize>(key: &[u8], nonce: &[u8], steps: &[&str]) -> Vec<
                 });
                 true
             }
+            // dz.TOTAL.CHUNK : TOTAL zero bytes of CIPHERTEXT decrypted in place, CHUNK bytes at a time; reports the first and the last
+            // 64 bytes of the plaintext (= keystream) only
+            "dz" => {
+                let total: u64 = u64p(p[1]);
+                let chunk = usz(p[2]);
+                step(&mut out, || {
+                    let mut buf = vec![0u8; chunk];
+                    let mut left = total;
+                    let mut first: Vec<u8> = Vec::new();
+                    let mut last: Vec<u8> = Vec::new();
+                    while left > 0 {
+                        let n = std::cmp::min(left, chunk as u64) as usize;
+                        for b in buf[..n].iter_mut() {
+                            *b = 0;
+                        }
+                        match &mut st {
+                            Inc::Dec(c) => c.decrypt_mut(&mut buf[..n]),
+                            _ => panic!("HARNESS"),
+                        }
+                        if first.is_empty() {
+                            first = buf[..std::cmp::min(64, n)].to_vec();
+                        }
+                        last.extend_from_slice(&buf[..n]);
+                        if last.len() > 64 {
+                            last = last[last.len() - 64..].to_vec();
+                        }
+                        left -= n as u64;
+                    }
+                    Some(format!("{}:{}", hex(&first), hex(&last)))
+                })
+            }
             // fin : finalize; for encryption a clone is finalized too (both tags are reported)
             "fin" => step(&mut out, || match std::mem::replace(&mut st, Inc::Done) {
                 Inc::Enc(c) => {
